@@ -119,45 +119,16 @@ theorem MainInv.stepA {w0s : TW} (K : Kind w0s) (pre : List Op1) (post0 : List S
           exact Or.inl ⟨base, _, rfl, hsrc, hsub, hterm, fun _ => ⟨hal, rfl⟩, hlen, hcalm⟩
         | true =>
           rw [TW.step_emit_term (lift post0 j base fs.ps (fs.out.foldl TW.step w0s)) 0 n hn hsrc hterm hsub hal]
-          obtain ⟨T, hst, hT'⟩ := hO.one.stage
-          cases hfin : fin (lift post0 j base fs.ps (fs.out.foldl TW.step w0s)).stages with
-          | false =>
-            simp only [Bool.false_eq_true, if_false]
-            have e1 : ({ lift post0 j base fs.ps (fs.out.foldl TW.step w0s) with
-                  terminated := 0 :: (lift post0 j base fs.ps (fs.out.foldl TW.step w0s)).terminated,
-                  srcAlive := false } : TW)
-                = lift post0 j { base with terminated := 0 :: base.terminated, srcAlive := false } fs.ps
-                    (fs.out.foldl TW.step w0s) := rfl
-            rw [e1, hpush, deliverNotifiers_noop _ 0 _ (lift_no_op2n post0 j _ _ _ hO'.one)]
-            refine Or.inl ⟨{ base with terminated := 0 :: base.terminated, srcAlive := false }, _, rfl, hsrc, hsub,
-              by simp [hn], ?_, hlen, hcalm⟩
-            intro h; simp at h
-          | true =>
-            simp only [if_true]
-            have e1 : ({ lift post0 j base fs.ps (fs.out.foldl TW.step w0s) with
-                  terminated := 0 :: (lift post0 j base fs.ps (fs.out.foldl TW.step w0s)).terminated } : TW)
-                = lift post0 j { base with terminated := 0 :: base.terminated } fs.ps
-                    (fs.out.foldl TW.step w0s) := rfl
-            rw [e1, deliverNotifiers_noop _ 0 _ (lift_no_op2n post0 j _ _ _ hO.one)]
-            by_cases hmid : (runChain fs.ps [n]).2 = []
-            · -- `pre` outputs nothing for the terminal: nothing is lost
-              refine Or.inl ⟨{ base with terminated := 0 :: base.terminated }, fs.ps, ?_, hsrc, hsub,
-                by simp [hn], ?_, hj, hcp⟩
-              · simp only [hmid, List.map_nil, List.append_nil]
-              · intro h; simp at h
-            · -- `pre` would have output something: `post` has finished
-              have hnt : terminated (script fs.out) = false := term_false_of_WF_append hwf hmid
-              rw [fin_lift post0 j base fs.ps _ T hst hT'] at hfin
-              have hdead : deadSt (runChain post0 (fs.out.foldl TW.step w0s).log).1 = true := by
-                cases hd1 : deadSt fs.ps with
-                | true => exact absurd (deadSt_run fs.ps [n] hd1).1 hmid
-                | false =>
-                  have := (hO.alive hnt).2 T hst
-                  simpa [hd1, this] using hfin
-              refine Or.inr ⟨{ base with terminated := 0 :: base.terminated }, (fs.out.foldl TW.step w0s).log, rfl,
-                hsrc, by simp, trivial,
-                List.prefix_refl _, ?_, hdead⟩
-              exact K.log_mono fs.out _ hF.fifo (fifo_emits _)
+          simp only []
+          have e1 : ({ lift post0 j base fs.ps (fs.out.foldl TW.step w0s) with
+                terminated := 0 :: (lift post0 j base fs.ps (fs.out.foldl TW.step w0s)).terminated,
+                srcAlive := false } : TW)
+              = lift post0 j { base with terminated := 0 :: base.terminated, srcAlive := false } fs.ps
+                  (fs.out.foldl TW.step w0s) := rfl
+          rw [e1, hpush, deliverNotifiers_noop _ 0 _ (lift_no_op2n post0 j _ _ _ hO'.one)]
+          refine Or.inl ⟨{ base with terminated := 0 :: base.terminated, srcAlive := false }, _, rfl, hsrc, hsub,
+            by simp [hn], ?_, hlen, hcalm⟩
+          intro h; simp at h
     · have hfs : fs.step (.emit i n) = fs := by simp [FS.step, hi]
       rw [hfs]
       rw [step_emit_other_gen (lift post0 j base preS (fs.out.foldl TW.step w0s)) i n hsrc hi
